@@ -7,6 +7,9 @@ from concurrent.futures import ThreadPoolExecutor
 
 V = "/verif"
 PROPS = [f"C{i:02d}" for i in range(1, 21)]
+PROPS_ENV = os.environ.get("PROPS")
+if PROPS_ENV:
+    PROPS = PROPS_ENV.split(",")
 PY = "/venv/bin/python" if os.path.exists("/venv/bin/python") else "python3"
 
 
@@ -47,7 +50,8 @@ def main():
             print(f"{name:8s} {msgs}"); bad += 1; continue
         mp = f"{V}/twins/{name}/meta.json"
         m = json.load(open(mp)); m["violation_in"] = hit; m["analysis_error_in"] = err
-        json.dump(m, open(mp, "w"), indent=1)
+        if not PROPS_ENV:
+            json.dump(m, open(mp, "w"), indent=1)
         print(f"{name:8s} {'silent' if not hit and not err else 'NOISY '} false-alarm: {','.join(hit) or '-':30s} unrecognised: {','.join(err) or '-'}")
         if msgs and "-v" in sys.argv:
             print("   " + msgs.replace("\n", "\n   "))
